@@ -459,6 +459,9 @@ def energy_check(prop: str, tier: str, seed: int, text_rule: str, assumptions: L
         # what the vehicles gained)
         el = layers.events_layer(seed, EVENTS_BUDGET[tier])
         use_simple_layer(v, prop, el, "events", ["C19/station-load", "C19/energy-gained"])
+        # the initial layout: every plug type loaded from the stations file has a meter of its energy type
+        ll = layers.layout_layer(seed, LAYOUT_BUDGET[tier])
+        use_simple_layer(v, prop, ll, "layout", ["C05"], NO_DIFFS)
     if not ps.ok:
         v.broken(f"proof obligation for {prop}: {ps.failing_obligation()}", {"theorem_or_build": ps.failing_obligation()})
     cov = {**fw.proof_coverage(ps), **hist_coverage(hl)}
@@ -500,7 +503,7 @@ def check_C05(tier: str, seed: int) -> int:
         "charging sessions at stations and through bases, cut short by instructions or a full battery; function-level mechatronics cases as in C04 (the transferred amount). "
         "distinct_nontrivial = distinct function-level shapes",
         ["exact rational arithmetic; comparisons of sums use tolerance 1e-9·scale",
-         "partial: the history-level sum invariant is enforced by monitor, the Lean theorems are per charging step / per pickup"])
+         "the run-level theorems (per vehicle, per station, per energy type, fleet sums) are about the model; the implementation is tied to them by the per-phase monitor and the comparison of states and events"])
 
 
 TIMED_BUDGET = {"quick": 480, "thorough": 24000}
